@@ -259,6 +259,20 @@ def gen_C04(tier, seed):
             out.append(f"{g.r.choice(['eadd_unit','esub_unit'])} {p3(e)} {g.r.randint(0, 8)}")
         else:
             out.append(f"ediff {p3(g.rand_epoch())} {p3(g.rand_epoch())}")
+    # Epoch + f64: integer-valued seconds (exact clause) and a few others (model = code only)
+    rf = random.Random(seed * 17 + 4)
+    ks = [0, 1, -1, 2, 59, 60, 86400, -86400, 9007199, -9007199, 9007200, 4294967296, 4611686018, 4611686019, 5000000001, 10**10, -10**10, 2**40, 2**53, 2**53 + 2,
+          3155760000, 315576000000, -315576000000]
+    for e in [(0, 0, 0), (-1, NPC - 1, 0), (0, 1, 4), (1, 5, 5), (-3, 17, 1), (32767, 0, 0), (-32768, 0, 7)]:
+        for k in ks:
+            out.append(f"eadd_f64 {p3(e)} {fbits(float(k))}")
+        for x in (0.5, -0.5, 1e-9, 0.1, 1.0000000001, 1e300, -1e300, float('inf'), float('nan'), 5e-324):
+            out.append(f"eadd_f64 {p3(e)} {fbits(x)}")
+    for _ in range(budget(tier, 3000, 200000)):
+        e = g.rand_epoch()
+        k = rf.choice([rf.randint(-10**7, 10**7), rf.randint(-10**10, 10**10), rf.randint(-2**53, 2**53), rf.randint(-100, 100)])
+        x = float(k) if rf.random() < 0.85 else k + rf.random()
+        out.append(f"eadd_f64 {p3(e)} {fbits(x)}")
     return out
 
 
@@ -572,6 +586,13 @@ def gen_C09(tier, seed):
         t = r.randint(0, 8)
         c, nn = parts_of(day * NPD + tod - REF_NS.get(t, 0))
         out.append(f"to_greg {c} {nn} {t}")
+    # year(), month_name(), hours() .. nanoseconds()
+    ra = random.Random(seed * 13 + 9)
+    for t in INT_SCALES:
+        for v in g.epoch_vals_pool()[::3] + [days_from_civil(y, m, 1) * NPD + off for y in (-400, 1, 1899, 1900, 2000, 2024, 9999) for m in (1, 2, 3, 12) for off in (0, NPD - 1)]:
+            out.append(f"accessors {p3(parts_of(v) + (t,))}")
+    for _ in range(budget(tier, 3000, 300000)):
+        out.append(f"accessors {p3(g.rand_epoch())}")
     return out
 
 
@@ -614,6 +635,26 @@ def gen_C16(tier, seed):
             out.append(f"next {p3(e)} {g.r.randint(0, 6)}")
         else:
             out.append(f"prev {p3(e)} {g.r.randint(0, 6)}")
+    # next/previous weekday at midnight / noon, with_hms_strict (model = code; with_hms has a spec)
+    rw = random.Random(seed * 11 + 16)
+    for t in (0, 4, 5):
+        for v in [0, 1, -1, NPD, -NPD, NPD // 2, -NPD // 2, -NPD - 1, 36524 * NPD + 43200 * SEC, 3 * NPC + 5, -3 * NPC - 5]:
+            e = parts_of(v) + (t,)
+            for w in range(7):
+                for h in (0, 12):
+                    out.append(f"next_at {p3(e)} {w} {h}")
+                    out.append(f"prev_at {p3(e)} {w} {h}")
+            for hms in ((0, 0, 0), (12, 0, 0), (23, 59, 59), (24, 0, 0), (1, 61, 61), (2**40, 0, 0), (0, 0, 2**63)):
+                out.append(f"with_hms {p3(e)} {hms[0]} {hms[1]} {hms[2]}")
+    for _ in range(budget(tier, 3000, 300000)):
+        e = g.rand_epoch()
+        k = rw.random()
+        if k < 0.35:
+            out.append(f"next_at {p3(e)} {rw.randint(0, 6)} {rw.choice([0, 12])}")
+        elif k < 0.7:
+            out.append(f"prev_at {p3(e)} {rw.randint(0, 6)} {rw.choice([0, 12])}")
+        else:
+            out.append(f"with_hms {p3(e)} {rw.choice([rw.randint(0, 23), rw.randint(0, 10**6)])} {rw.choice([rw.randint(0, 59), rw.randint(0, 10**6)])} {rw.choice([rw.randint(0, 59), rw.randint(0, 10**9)])}")
     return out
 
 
